@@ -100,7 +100,7 @@ def c13(tier):
                 "without propagate()), then one or two calls of new_eq/new_conj/new_disj/new_at_most_one/new_exct_one over ALL "
                 "argument lists of length <= L on the 2n literals (duplicates, complements, decided literals), the second call "
                 "on every short list and every permutation/sub-list/extension/sign-flip of the first, optionally a unit clause "
-                "in between; plus all orderings and signs of 4..6 distinct variables (product encoding). After every step every "
+                "in between; plus all orderings and signs of 4..6 distinct variables and, for 5..8 (thorough: 10) distinct variables in ascending and descending order, every sign pattern (product encoding with incomplete grids). After every step every "
                 "construct built so far is judged by truth table: eq/conj/disj literal <=> formula in every model; amo/exo "
                 "literal true => cardinality constraint, and every assignment of the user variables satisfying it extends to a "
                 "model with the literal true; every call is conservative. distinct_nontrivial = distinct (returned literals, "
@@ -584,7 +584,23 @@ def c18(tier):
              ("bytes/dbg", "dbg", "lexmc", ["--mode", "bytes"]), ("prefixes/dbg", "dbg", "lexmc", ["--mode", "prefixes", "--repo", vbuild.REPO]),
              ("parse/dbg", "dbg", "lexmc", ["--mode", "parse"]), ("tokens/dbg", "dbg", "lexmc", ["--mode", "tokens"])]
     res = run_parts(out, parts, tier)
-    ev = sum(r["counters"].get("cases", 0) for r in res.values())
+    # (b) valid programs: every program family through read()+solve() in Release and Debug+ASan+UBSan;
+    #     only abnormal outcomes (abort, assertion, sanitizer report, foreign exception, no answer) are judged here
+    fam_stats = []
+    for fam in ("fam_cn", "fam_tl", "fam_rules", "fam_oo", "fam_eval"):
+        if tier == "quick" and fam == "fam_eval":
+            continue  # 28k expression programs: already run under the sanitizers by C16's quick check (dbg-hadd-ci); here in the thorough tier
+        fam_stats.append(named(run_family(out, fam, ["dbg"] if tier == "quick" else ["rel", "dbg", "dbg-hadd-ci", "rel-hadd-ci"], tier, limit_ms=15000,
+                                          after_read=(fam == "fam_oo"), only_keys_prefix="C18"), fam))
+    # (c) valid API sequences on the constraint network with assertions on (Debug) and under the sanitizers
+    net_parts = [("netmc-C07/dbg", "dbg", "netmc", ["--prop", "C07", "--depth_delta", "-1"]), ("netmc-C08/dbgn", "dbgn", "netmc", ["--prop", "C08", "--depth_delta", "-1"]),
+                 ("reify/dbg", "dbg", "reify", []), ("relmc-C11/dbg", "dbg", "relmc", ["--prop", "C11"]), ("relmc-C12/dbg", "dbg", "relmc", ["--prop", "C12"])]
+    if tier == "quick":
+        net_parts = net_parts[:1] + net_parts[3:]
+    res_net = run_parts(out, net_parts, "quick")
+    # only abnormal terminations of those runs belong to this property (their oracles are judged by C07..C13)
+    out.findings = [f for f in out.findings if f["key"].startswith("C18") or f.get("engine") == "lexmc"]
+    ev = sum(r["counters"].get("cases", 0) for r in res.values()) + sum(s["runs"] for s in fam_stats) + sum(r["counters"].get("histories", 0) + r["counters"].get("cases", 0) for r in res_net.values())
     acc = sum(r["counters"].get("accepted", 0) for r in res.values())
     rej = sum(r["counters"].get("rejected", 0) for r in res.values())
     out.coverage = {
@@ -594,15 +610,21 @@ def c18(tier):
                 "prefix (thorough; quick: every 7th beyond the first 600 bytes) of every file under examples/, through lexer+parser, in the "
                 "Release build and in the Debug+ASan+UBSan build; plus the valid token sequences and expression programs of C16 under the "
                 "sanitizers. Allowed outcomes: accepted, or a std::exception, within 0.4 s (confirmed alone with 2 s); anything else "
-                "(signal, std::terminate, sanitizer report, other exception, hang, >1 GB) is a violation. distinct_nontrivial = distinct "
-                "input texts (all are distinct by construction).",
+                "(signal, std::terminate, sanitizer report, other exception, hang, >1 GB) is a violation. (b) valid programs: every program "
+                "of the families of C01-C06, C16, C17 (constraint networks, timelines, rules, objects, expression evaluation) through "
+                "read()+solve() in Debug+ASan+UBSan (thorough: four configurations incl. Release and the evaluation family): no abort, assertion, sanitizer report, "
+                "foreign exception, and an answer within 15 s (confirmed alone with 45 s). (c) valid API sequences: the histories of C07 "
+                "(depth-1), C11, C12 (thorough: C08, C13) in the Debug+sanitizer build. distinct_nontrivial = distinct input texts of part (a) "
+                "(all distinct by construction).",
         "samples": res["bytes/rel"]["samples"][:3] + res["prefixes/rel"]["samples"][:3],
         "exhaustive": all(r["exhaustive"] for r in res.values()),
         "accepted": acc, "rejected": rej,
-        "parts": {k: {"counters": r["counters"], "exhaustive": r["exhaustive"], "wall_ms": r.get("wall_ms")} for k, r in res.items()},
+        "parts": {k: {"counters": r["counters"], "exhaustive": r["exhaustive"], "wall_ms": r.get("wall_ms")} for k, r in list(res.items()) + list(res_net.items())},
+        "program_families": {s["name"]: {k: s[k] for k in ("programs", "runs", "verdicts")} for s in fam_stats},
     }
-    out.assumptions = ["AddressSanitizer/UBSan (g++ 12) report what they detect; leak checking is off for rejected inputs (the reader does not free the tokens of a rejected text)",
-                       "network API sequences and solver runs under the sanitizers are added to this property as their engines are built"]
+    out.assumptions = ["AddressSanitizer/UBSan (g++ 12) report what they detect; the vptr check is off (see DESIGN.md: core::core() touches its env base before construction, a benign UB whose detection depends on stack garbage)",
+                       "leak checking is off (the reader does not free the tokens of a rejected text; solver objects are owned by a live solver)",
+                       "network harnesses replace operator new with a bump arena, so ASan does not see heap errors in those runs (assertions and UBSan still apply)"]
     return out.finish()
 
 
@@ -624,7 +646,7 @@ def setup():
     vbuild.ensure_harness("dbgn", "seqref", quiet=False)
     vbuild.ensure_harness("par", "schedmc", extra_flags=["-rdynamic", "-ldl"], quiet=False)
     vbuild.ensure_harness("par-tsan", "racefree", quiet=False)
-    for cfg, h in [("rel", "arith_enum"), ("dbgn", "arith_enum"), ("dbg", "arith_enum"), ("rel", "reify"), ("dbgn", "reify"), ("rel", "netmc"), ("dbgn", "netmc"), ("rel", "relmc"), ("dbgn", "relmc"), ("rel", "lexmc"), ("dbgn", "lexmc"), ("dbg", "lexmc")]:
+    for cfg, h in [("rel", "arith_enum"), ("dbgn", "arith_enum"), ("dbg", "arith_enum"), ("rel", "reify"), ("dbgn", "reify"), ("rel", "netmc"), ("dbgn", "netmc"), ("rel", "relmc"), ("dbgn", "relmc"), ("rel", "lexmc"), ("dbgn", "lexmc"), ("dbg", "lexmc"), ("dbg", "netmc"), ("dbg", "relmc"), ("dbg", "progrun")]:
         vbuild.ensure_harness(cfg, h, quiet=False)
     print("setup done in %.0fs" % (time.time() - t0))
     return 0
